@@ -302,25 +302,33 @@ fn types_module_is_closed(files: &BTreeMap<String, String>, project_types: &[&st
 
 // ---- serde's renaming rules, transcribed from the serde documentation (oracle)
 fn words_of_field(f: &str) -> Vec<String> { f.split('_').filter(|w| !w.is_empty()).map(|w| w.to_string()).collect() }
-fn words_of_variant(v: &str) -> Vec<String> {
-    let mut ws: Vec<String> = Vec::new();
-    for (i, ch) in v.chars().enumerate() { if i == 0 || ch.is_uppercase() { ws.push(String::new()); } ws.last_mut().unwrap().push(ch); }
-    ws
-}
 fn cap(w: &str) -> String { let mut c = w.chars(); match c.next() { Some(f) => f.to_uppercase().collect::<String>() + c.as_str(), None => String::new() } }
 fn apply_rule(rule: &str, name: &str, variant: bool) -> String {
-    let ws: Vec<String> = if variant { words_of_variant(name) } else { words_of_field(name) }.iter().map(|w| w.to_lowercase()).collect();
-    match rule {
-        "lowercase" => if variant { name.to_lowercase() } else { name.to_string() },
-        "UPPERCASE" => name.to_uppercase(),
-        "PascalCase" => if variant { name.to_string() } else { ws.iter().map(|w| cap(w)).collect() },
-        "camelCase" => if variant { let mut c = name.chars(); match c.next() { Some(f) => f.to_lowercase().collect::<String>() + c.as_str(), None => String::new() } }
-                       else { ws.iter().enumerate().map(|(i, w)| if i == 0 { w.clone() } else { cap(w) }).collect() },
-        "snake_case" => if variant { ws.join("_") } else { name.to_string() },
-        "SCREAMING_SNAKE_CASE" => if variant { ws.join("_").to_uppercase() } else { name.to_uppercase() },
-        "kebab-case" => if variant { ws.join("_").replace('_', "-") } else { name.replace('_', "-") },
-        "SCREAMING-KEBAB-CASE" => if variant { ws.join("_").to_uppercase().replace('_', "-") } else { name.to_uppercase().replace('_', "-") },
-        _ => name.to_string(),
+    // transcribed from serde_derive's case.rs (apply_to_field / apply_to_variant)
+    let pascal_field = |f: &str| -> String { let mut out = String::new(); let mut cap = true; for ch in f.chars() { if ch == '_' { cap = true; } else if cap { out.push(ch.to_ascii_uppercase()); cap = false; } else { out.push(ch); } } out };
+    let snake_variant = |v: &str| -> String { let mut out = String::new(); for (i, ch) in v.char_indices() { if i > 0 && ch.is_uppercase() { out.push('_'); } out.push(ch.to_ascii_lowercase()); } out };
+    if variant {
+        match rule {
+            "lowercase" => name.to_ascii_lowercase(),
+            "UPPERCASE" => name.to_ascii_uppercase(),
+            "PascalCase" => name.to_string(),
+            "camelCase" => { let mut c = name.chars(); match c.next() { Some(f) => f.to_ascii_lowercase().to_string() + c.as_str(), None => String::new() } }
+            "snake_case" => snake_variant(name),
+            "SCREAMING_SNAKE_CASE" => snake_variant(name).to_ascii_uppercase(),
+            "kebab-case" => snake_variant(name).replace('_', "-"),
+            "SCREAMING-KEBAB-CASE" => snake_variant(name).to_ascii_uppercase().replace('_', "-"),
+            _ => name.to_string(),
+        }
+    } else {
+        match rule {
+            "lowercase" | "snake_case" => name.to_string(),
+            "UPPERCASE" | "SCREAMING_SNAKE_CASE" => name.to_ascii_uppercase(),
+            "PascalCase" => pascal_field(name),
+            "camelCase" => { let p = pascal_field(name); let mut c = p.chars(); match c.next() { Some(f) => f.to_ascii_lowercase().to_string() + c.as_str(), None => String::new() } }
+            "kebab-case" => name.replace('_', "-"),
+            "SCREAMING-KEBAB-CASE" => name.to_ascii_uppercase().replace('_', "-"),
+            _ => name.to_string(),
+        }
     }
 }
 
@@ -382,6 +390,8 @@ fn main() {
         // parameter-name shapes: digits after underscores, doubled / leading underscores, one-letter words, non-ASCII
         let shapes = ["pos_2d", "size_3d_px", "on_2nd_pass", "line_1_start", "v_2", "_lead", "dou__ble", "x", "http_2_server", "a_b_c", "über_wert", "trailing_", "user_id", "r#type", "r#in_place"];
         src.push_str(&format!("#[tauri::command]\npub fn shapes({}) -> u32 {{ 0 }}\n", shapes.iter().map(|n| format!("{}: u32", n)).collect::<Vec<_>>().join(", ")));
+        src.push_str("#[derive(Serialize, Deserialize)]\npub struct Request { pub id: u32 }\n#[derive(Serialize, Deserialize)]\npub struct Channel2 { pub id: u32 }\npub mod dto { use serde::{Serialize, Deserialize}; #[derive(Serialize, Deserialize)] pub struct Window { pub title: String } }\n");
+        src.push_str("#[tauri::command]\npub fn user_types_named_like_injected(request: Request, channel: Channel2, pane: crate::dto::Window, other: u32) -> u32 { 0 }\n");
         src.push_str("#[tauri::command]\npub fn opt_paths(plain: Option<u32>, std_path: std::option::Option<u32>, core_path: core::option::Option<String>, abs_path: ::std::option::Option<bool>, required: u32) -> u32 { 0 }\n");
         src.push_str("#[tauri::command]\npub fn r#move(first_arg: String, r#type: u32, on_event: Channel<u32>) -> u32 { 0 }\n");
         let dir = root.join("inject/src");
@@ -431,6 +441,14 @@ fn main() {
             });
             rep.case("generated_files_are_lexically_wellformed", &format!("project=inject mode={}", mode), &|| lexical_wellformed(&generate(&dir, &root.join(format!("inject/out_{}", mode)), mode)?));
             rep.case("declared_function_names_are_legal", &format!("project=inject mode={}", mode), &|| declared_names_legal(&generate(&dir, &root.join(format!("inject/out_{}", mode)), mode)?));
+            rep.case("invoke_keys_in_generated_bindings", &format!("fn user_types_named_like_injected(request: Request, channel: Channel2, pane: crate::dto::Window, other: u32) mode={}", mode), &|| {
+                let files = generate(&dir, &root.join(format!("inject/out_{}", mode)), mode)?;
+                let t = files.get("types.ts").ok_or("no types.ts")?;
+                let mut keys = object_keys(t, "UserTypesNamedLikeInjectedParams", mode == "zod").ok_or("UNPARSED: UserTypesNamedLikeInjectedParams not found")?;
+                keys.sort();
+                if keys != ["channel", "other", "pane", "request"] { return Err(format!("keys {:?}, expected [channel, other, pane, request]: `Request`, `Channel2` and `dto::Window` are user-defined serde structs, not framework types", keys)); }
+                Ok(format!("{:?}", keys))
+            });
             rep.case("omittable_keys_are_the_option_parameters", &format!("fn opt_paths(plain: Option<u32>, std_path: std::option::Option<u32>, core_path: core::option::Option<String>, abs_path: ::std::option::Option<bool>, required: u32) mode={}", mode), &|| {
                 let files = generate(&dir, &root.join(format!("inject/out_{}", mode)), mode)?;
                 let t = files.get("types.ts").ok_or("no types.ts")?;
@@ -505,6 +523,10 @@ fn main() {
             ("rename_upper", "#[serde(rename = \"HTTPCode\")]", Some("HTTPCode")),
             ("r#type", "", Some("type")),
             ("same_name", "#[serde(rename = \"same_name\")]", Some("same_name")),
+            ("user_ID", "#[allow(non_snake_case)]", Some("user_ID")),
+            ("base_URL", "#[allow(non_snake_case)]", Some("base_URL")),
+            ("ID", "#[allow(non_snake_case)]", Some("ID")),
+            ("mixedCase_field", "#[allow(non_snake_case)]", Some("mixedCase_field")),
             ("marker", "", Some("marker")),
             ("unit_field", "", Some("unit_field")),
             ("ser_de", "#[serde(rename(serialize = \"accountId\", deserialize = \"account_id\"))]", Some("accountId")),
@@ -548,6 +570,8 @@ fn main() {
             lits.push("explicit".to_string());
             ebody.push_str("    #[serde(rename(serialize = \"on-hold\", deserialize = \"onhold\"))]\n    OnHold,\n");
             lits.push("on-hold".to_string());
+            ebody.push_str("    #[serde(rename = \"\\\\\")]\n    Backslash,\n");
+            lits.push("\\\\".to_string());
             ebody.push_str("    #[serde(rename = \"SameName\")]\n    SameName,\n");
             lits.push("SameName".to_string());
             ebody.push_str("    #[serde(rename = \"HTTP\")]\n    Proto,\n");
@@ -677,6 +701,7 @@ fn main() {
             ("c:user:login", "app.emit(\"c:user:login\", 1u32).ok();"), ("CUserLogin", "app.emit(\"CUserLogin\", 1u32).ok();"), ("c-user-login2", "app.emit(\"c-user-login2\", 1u32).ok();"),
             // functions carrying cfg / other attributes and qualifiers
             ("n-closure", ""), ("n-async-block-in-call", ""), ("n-unsafe-block", ""), ("n-if-let", ""), ("n-else-if", ""), ("n-while-let", ""), ("n-match-guard", ""), ("n-block-expr", ""), ("n-paren", ""), ("n-async-await", ""),
+            ("g-letter-in-name", ""), ("g-letter-in-name-2", ""), ("v-typed-first", ""), ("v-untyped-after-typed", ""),
             ("t-typed-vec-new", ""), ("t-typed-default", ""), ("t-typed-method", ""), ("t-typed-none", ""), ("t-typed-from", ""),
             ("f-cfg-not-test", ""), ("f-cfg-feature", ""), ("f-cfg-any", ""), ("f-attrs", ""), ("f-async-unsafe", ""), ("f-generic-payload", ""), ("f-private", ""),
         ];
@@ -708,6 +733,12 @@ fn main() {
                 let _r = async { app.emit(\"n-async-await\", 1u32).ok(); }.await;\n\
             }\n\
             fn spawn<F>(_f: F) {}\n\
+            #[derive(Serialize, Deserialize, Clone)]\npub struct ScanReport { pub lines: Vec<ReportLine> }\n#[derive(Serialize, Deserialize, Clone)]\npub struct ReportLine { pub text: String }\n#[derive(Serialize, Deserialize, Clone)]\npub struct Ticket { pub id: u32 }\n\
+            pub fn publish<R: tauri::Runtime>(app: &tauri::AppHandle<R>, report: ScanReport) { app.emit(\"g-letter-in-name\", report).ok(); }\n\
+            pub fn publish_t<T: Clone>(app: &tauri::AppHandle, ticket: Ticket, _x: T) { app.emit(\"g-letter-in-name-2\", ticket).ok(); }\n\
+            pub fn typed_first(app: &tauri::AppHandle, item: Player) { app.emit(\"v-typed-first\", item).ok(); }\n\
+            pub fn untyped_after(app: &tauri::AppHandle) { let item = make_item(); app.emit(\"v-untyped-after-typed\", item).ok(); }\n\
+            fn make_item() -> u32 { 0 }\n\
             pub fn typed_lets(app: &tauri::AppHandle, state: Holder) {\n\
                 let queue: Vec<Player> = Vec::new(); app.emit(\"t-typed-vec-new\", &queue).ok();\n\
                 let fallback: Player = Default::default(); app.emit(\"t-typed-default\", fallback.clone()).ok();\n\
@@ -733,7 +764,13 @@ fn main() {
         for mode in ["none", "zod"] {
             let files = generate(&dir, &root.join(format!("emits/out_{}", mode)), mode);
             rep.case("generated_files_are_lexically_wellformed", &format!("project=emits mode={}", mode), &|| lexical_wellformed(files.as_ref().map_err(|e| e.clone())?));
-            rep.case("type_references_resolve", &format!("project=emits mode={}", mode), &|| references_resolve(files.as_ref().map_err(|e| e.clone())?, &["Player", "Holder"]));
+            rep.case("type_references_resolve", &format!("project=emits mode={}", mode), &|| references_resolve(files.as_ref().map_err(|e| e.clone())?, &["Player", "Holder", "ScanReport", "ReportLine", "Ticket"]));
+            rep.case("mentioned_project_types_are_declared", &format!("project=emits mode={}", mode), &|| {
+                let files = files.as_ref().map_err(|e| e.clone())?;
+                let exp = exports_of(files.get("types.ts").ok_or("no types.ts")?);
+                for n in ["Player", "ScanReport", "ReportLine", "Ticket"] { if !exp.contains(n) && !exp.contains(&format!("{}Schema", n)) { return Err(format!("{} is reachable from an event payload but types.ts does not declare it", n)); } }
+                types_module_is_closed(files, &["Player", "ScanReport", "ReportLine", "Ticket"])
+            });
             rep.case("declared_function_names_are_legal", &format!("project=emits mode={}", mode), &|| declared_names_legal(files.as_ref().map_err(|e| e.clone())?));
             rep.case("payload_types_follow_the_declarations", &format!("project=emits mode={}", mode), &|| {
                 let files = files.as_ref().map_err(|e| e.clone())?;
@@ -742,7 +779,8 @@ fn main() {
                 let want = [("t-typed-vec-new", "types.Player[]"), ("t-typed-default", "types.Player"), ("t-typed-method", "number"), ("t-typed-none", "types.Player | null"), ("t-typed-from", "string"),
                     ("p-vec-struct", "types.Player[]"), ("p-lifetime-opt", "types.Player | null"), ("p-lifetime-vec", "string[]"), ("a-ref-payload", "boolean"), ("a-stmt", "number"), ("f-generic-payload", "unknown"),
                     ("n-if-let", "unknown"), ("n-while-let", "unknown"), ("n-match-guard", "unknown"), ("n-closure", "number"),
-                    ("r-mixed", "unknown"), ("r-repeat", "number")];
+                    ("r-mixed", "unknown"), ("r-repeat", "number"),
+                    ("g-letter-in-name", "types.ScanReport"), ("g-letter-in-name-2", "types.Ticket"), ("v-typed-first", "types.Player"), ("v-untyped-after-typed", "unknown")];
                 for (name, ty) in want {
                     let needle = format!(">('{}',", name);
                     let p = ev.find(&needle).ok_or(format!("no listener subscribed to '{}'", name))?;
@@ -994,7 +1032,7 @@ fn main() {
     {
         // (field, Rust type, TypeScript type of the plain interface)
         let table: Vec<(&str, &str, &str)> = vec![
-            ("s", "String", "string"), ("n1", "u8", "number"), ("n2", "i64", "number"), ("n3", "f32", "number"), ("n4", "usize", "number"), ("b", "bool", "boolean"),
+            ("s", "String", "string"), ("big", "u128", "number"), ("neg", "i128", "number"), ("n64", "u64", "number"), ("n1", "u8", "number"), ("n2", "i64", "number"), ("n3", "f32", "number"), ("n4", "usize", "number"), ("b", "bool", "boolean"),
             ("opt", "Option<String>", "string | null"), ("v", "Vec<u32>", "number[]"), ("hs", "HashSet<String>", "string[]"), ("bs", "BTreeSet<u8>", "number[]"),
             ("hm", "HashMap<String, u32>", "Record<string, number>"), ("bm", "BTreeMap<String, Vec<bool>>", "Record<string, boolean[]>"),
             ("t2", "(String, u32)", "[string, number]"), ("t1", "(String,)", "[string]"), ("t3", "(u8, (bool, String), Vec<u8>)", "[number, [boolean, string], number[]]"),
@@ -1047,6 +1085,18 @@ fn main() {
             rep.case("generated_files_are_lexically_wellformed", &format!("project=table mode={}", mname), &|| lexical_wellformed(res.as_ref().map_err(|e| e.clone())?));
             rep.case("type_references_resolve", &format!("project=table mode={}", mname), &|| references_resolve(res.as_ref().map_err(|e| e.clone())?, &["Leaf", "Table"]));
         }
+        rep.case("both_modes_same_primitive_kind", "struct Table", &|| {
+            let n = none.as_ref().map_err(|e| e.clone())?.get("types.ts").ok_or("no types.ts (none)")?;
+            let z = zod.as_ref().map_err(|e| e.clone())?.get("types.ts").ok_or("no types.ts (zod)")?;
+            let plain = object_entries(n, "Table", false).ok_or("UNPARSED: plain declaration of Table")?;
+            for (k, v) in plain {
+                let sch = zod_field(z, "Table", k.trim_matches('"')).ok_or(format!("TableSchema has no key {}", k))?;
+                let kind = |needle: &[&str]| needle.iter().any(|x| sch.starts_with(x));
+                let ok = match v.as_str() { "number" => kind(&["z.number()", "z.coerce.number()"]), "string" => kind(&["z.string()", "z.coerce.string()"]), "boolean" => kind(&["z.boolean()", "z.coerce.boolean()"]), _ => true };
+                if !ok { return Err(format!("Table.{} is declared `{}` in plain mode but its schema is `{}`", k, v, sch)); }
+            }
+            Ok("ok".into())
+        });
         // C10: a key may be left out in one mode iff it may be left out in the other
         let opt_fields = ["opt", "ov", "ot1", "s", "v", "mo"];
         for f in opt_fields {
